@@ -7,6 +7,7 @@ or executed.
 """
 import ast
 import os
+import sys
 import hashlib
 
 REPO = os.environ.get("VERIF_REPO", "/repo")
@@ -1666,8 +1667,72 @@ def super_call_info(call):
 _PROGRAM_CACHE = {}
 
 
+def _tree_digest(repo):
+    """digest of everything the program model is a function of: every source file of the package, the analyser's own model code, the reference table, the switches"""
+    h = hashlib.sha256()
+    root = os.path.join(repo, PKG)
+    for dirpath, dirnames, filenames in os.walk(root):
+        dirnames.sort()
+        for fn in sorted(filenames):
+            if fn.endswith(".py"):
+                pth = os.path.join(dirpath, fn)
+                h.update(os.path.relpath(pth, repo).encode())
+                with open(pth, "rb") as fh:
+                    h.update(fh.read())
+    here = os.path.dirname(os.path.abspath(__file__))
+    for fn in ("model.py", "astutil.py", "reference.json"):
+        try:
+            with open(os.path.join(here, fn), "rb") as fh:
+                h.update(fh.read())
+        except OSError:
+            pass
+    h.update(repr(sorted((k, v) for k, v in os.environ.items() if k.startswith("VERIF_NO_"))).encode())
+    h.update(sys.version.encode())
+    return h.hexdigest()[:24]
+
+
 def load_program(repo=None):
+    """The program model of the tree under `repo`, built from its current source.  Building takes several seconds (parsing + canonicalisation), and twenty checks
+    build the same model: the built model is kept in <verif>/.cache keyed by a digest of every source file it was built from, so it is re-used only for a
+    byte-identical tree (VERIF_NO_MODEL_CACHE=1 turns this off)."""
     repo = repo or REPO
-    if repo not in _PROGRAM_CACHE:
-        _PROGRAM_CACHE[repo] = Program(repo)
-    return _PROGRAM_CACHE[repo]
+    if repo in _PROGRAM_CACHE:
+        return _PROGRAM_CACHE[repo]
+    cache_file = None
+    if os.environ.get("VERIF_NO_MODEL_CACHE") != "1":
+        try:
+            import pickle
+            cdir = os.path.join(os.path.dirname(os.path.dirname(os.path.abspath(__file__))), ".cache")
+            cache_file = os.path.join(cdir, "model-%s.pkl" % _tree_digest(repo))
+            if os.path.exists(cache_file):
+                sys.setrecursionlimit(max(sys.getrecursionlimit(), 20000))
+                with open(cache_file, "rb") as fh:
+                    prog = pickle.load(fh)
+                prog.repo = repo
+                for m in prog.modules.values():
+                    m.path = os.path.join(repo, m.relpath)
+                _PROGRAM_CACHE[repo] = prog
+                return prog
+        except Exception:
+            cache_file = cache_file if cache_file and not os.path.exists(cache_file) else None
+    prog = Program(repo)
+    _PROGRAM_CACHE[repo] = prog
+    if cache_file is not None:
+        try:
+            import pickle
+            os.makedirs(os.path.dirname(cache_file), exist_ok=True)
+            sys.setrecursionlimit(max(sys.getrecursionlimit(), 20000))
+            tmp = "%s.%d.tmp" % (cache_file, os.getpid())
+            with open(tmp, "wb") as fh:
+                pickle.dump(prog, fh, protocol=pickle.HIGHEST_PROTOCOL)
+            os.replace(tmp, cache_file)
+            # keep the directory small: the eight most recent models
+            olds = sorted((os.path.join(os.path.dirname(cache_file), f) for f in os.listdir(os.path.dirname(cache_file)) if f.startswith("model-")), key=os.path.getmtime)
+            for f in olds[:-8]:
+                try:
+                    os.remove(f)
+                except OSError:
+                    pass
+        except Exception:
+            pass
+    return prog
